@@ -74,12 +74,13 @@ def props_of_error(built, specs_by_key, e):
         return list(built.lemma_obls[lo]['props']), 'lemma:%s' % lo
     spec = specs_by_key.get(fn)
     fprops = list(spec.props) if spec else []
+    sprops = list(spec.safety) if spec and getattr(spec, 'safety', None) else fprops
     cid = e.get('clause')
     if cid and cid in built.clauses:
         c = built.clauses[cid]
         if c.kind == 'requires':
             # a callee's precondition failed at a call site in `fn`: the caller is at fault
-            return fprops, '%s#safety(call:%s)' % (fn, cid)
+            return sprops, '%s#safety(call:%s)' % (fn, cid)
         return list(c.props), cid
     # a woven proof step (assert in a hint block) that no longer goes through
     for sp in e.get('spans', []):
@@ -96,7 +97,7 @@ def props_of_error(built, specs_by_key, e):
                         break
                     ln -= 1
                 return hp, '%s#proof-step(%s:%s)' % (fn, o[1], o[2])
-    return fprops, '%s#safety' % fn
+    return sprops, '%s#safety' % fn
 
 
 def verus_name(key):
@@ -145,7 +146,7 @@ def count_obligations(built, prop, scope):
         if prop in c.props and c.kind in ('ensures', 'invariant', 'decreases'):
             obs.append(cid)
     for s in built.fnspecs:
-        if prop in s.props and s.key in scope:
+        if prop in (s.safety if getattr(s, 'safety', None) else s.props) and s.key in scope:
             f = [x for x in built.fns if x['key'] == s.key]
             if f and f[0]['has_body']:
                 obs.append(s.key + '#safety')
